@@ -175,6 +175,10 @@ def _roundtrips(data, fp, ctx, phase=""):
     if not isinstance(lod, di.ListOfDicts):
         raise Violation("to_list_of_dicts did not return a ListOfDicts")
     records_ok("to_list_of_dicts", [dict(x) for x in lod])
+    if True:
+        # the same list is exported as JSON text first (a read-only use): it still converts back to the frame
+        ctx.call("ListOfDicts.to_json", lod.to_json)
+        records_ok("to_list_of_dicts after the list was exported as JSON", [dict(x) for x in lod])
     back = ctx.call("ListOfDicts.to_data_frame", lod.to_data_frame)
     _compare_back("ListOfDicts", back, src, kinds, has_value)
     if n >= 2:
